@@ -320,6 +320,25 @@ def rule_r3(p, res):
     r.check(read <= written, pr, pr.node, "the v3 parser reads keys %s that the exporter never writes" % sorted(read - written), {"read": sorted(read), "written": sorted(written)})
     r.check(want <= written, ex, ex.node, "the exporter / tojson methods no longer write %s" % sorted(want - written))
     r.check(want <= read, pr, pr.node, "the v3 parser no longer reads %s" % sorted(want - read))
+    # ... and along the call chain that is actually taken: what a labelled graph's tojson writes, following its (explicit-base / super) calls
+    from ..calls import CallCtx
+    lg = p.cls("LabelledPointUndirectedGraph")
+
+    def chain_keys(fn, seen):
+        if fn in seen:
+            return set()
+        seen.add(fn)
+        ks = _dict_literal_keys(fn.node) | _subscript_keys(fn.node)
+        ctx = CallCtx(p, fn, lg)
+        for k in calls_in(fn.node):
+            if isinstance(k.func, ast.Attribute) and k.func.attr == "tojson":
+                for t in ctx.resolve_call(k):
+                    ks |= chain_keys(t.func, seen)
+        return ks
+    chain = chain_keys(tj[2], set())
+    need_graph = {"points", "connectivity", "labels", "landmarks"}
+    r.check(need_graph <= chain, tj[2], tj[2].node, "following the calls LabelledPointUndirectedGraph.tojson actually makes, the keys %s are never written: a labelled graph comes back from "
+            "LJSON without them (its edges are lost when `connectivity` is missing)" % sorted(need_graph - chain), {"chain_keys": sorted(chain)})
     # None <-> NaN
     exs = norm(ex.node)
     r.check("None if np.isnan(x) else x" in exs, ex, ex.node, "the exporter must map NaN coordinates to null")
@@ -506,4 +525,9 @@ WITNESSES = [
     Witness("C16.W13", "menpo/io/utils.py", "", "def _norm_path(filepath):", "import functools\n\n\n@functools.lru_cache(maxsize=None)\ndef _norm_path(filepath):", rule="C16.R1", construct="_norm_path", note="seeded change R2-C16-A"),
     Witness("C16.T1", "menpo/io/output/base.py", "_export", "if isinstance(fp, str):\n        fp = Path(fp)",
             "if isinstance(fp, str):\n        fp = Path(fp)\n    n_kwargs = len(exporter_kwargs)", kind="T"),
+]
+
+WITNESSES += [
+    Witness("C16.W14", "menpo/shape/labelled.py", "LabelledPointUndirectedGraph.tojson", "lms_dict = PointUndirectedGraph.tojson(self)", "lms_dict = PointCloud.tojson(self)",
+            rule="C16.R3", construct="LabelledPointUndirectedGraph.tojson", note="seeded change R3-C16-B"),
 ]
